@@ -377,7 +377,8 @@ def gen_program(r):
         prog += [['create', dst + DELIM + c], ['append', dst + DELIM + c], ['create', src + DELIM + c], ['rename', src, dst]]
     if r.random() < 0.25:
         # subscriptions are kept by name: white space at the ends and line breaks inside must survive (or the SUBSCRIBE be refused)
-        ws = [r.choice(['foo ', ' foo', 'n\nl', 'a\tb ', 'x\ry', 'foo'])for _ in range(2)]
+        # ... and the other characters some line splitters take for a line boundary (U+2028, U+2029, NEL, FF, VT, FS..RS) are ordinary name characters
+        ws = [r.choice(['foo ', ' foo', 'n\nl', 'a\tb ', 'x\ry', 'foo', 'n\u2028l', 'n\u2029l', 'n\x85l', 'n\x0cl', 'n\x0bl', 'n\x1cl', 'n\x1el', 'foo\u2028']) for _ in range(2)]
         names += ws + ['foo', 'n', 'l']
         prog += [['create', 'foo'], ['create', 'n'], ['create', 'l']] + [['create', w] for w in ws] + [['subscribe', w] for w in ws] + [['lsub', '', '*']]
         if r.random() < 0.5:
